@@ -128,4 +128,78 @@ theorem pollStages_item {α} (T : Tables α) (b : Bool) (sub : Nat) (P : PWorld 
               · rename_i it rest he; exact hemit _ _ _ he
               · exact ih _ _ h2
 
+/-- **fuel is only a termination device**: once a poll of the pipeline comes back without `panic`, more fuel gives
+    exactly the same result -/
+theorem pollStages_fuel_succ {α} (T : Tables α) (b : Bool) (sub : Nat) :
+    ∀ (n : Nat) (sts : List (Stage α)) (w : PWorld α), (pollStages T b sub n sts w).1 ≠ .panic →
+      pollStages T b sub (n + 1) sts w = pollStages T b sub n sts w := by
+  intro n
+  induction n with
+  | zero => intro sts w h; simp [pollStages] at h
+  | succ n ih =>
+    intro sts w h
+    cases sts with
+    | nil => simp only [pollStages]
+    | cons st inner =>
+      simp only [pollStages] at h ⊢
+      split
+      · rfl
+      · rename_i hready
+        simp only [hready] at h
+        split
+        · rename_i v w1 hlp
+          simp only [hlp] at h
+          split
+          · rfl
+          · rename_i hem
+            simp only [hem] at h
+            exact ih _ _ h
+        · rename_i lres w1 hnv hlp
+          -- the inner call did not panic (otherwise the whole poll would have)
+          have hin : (pollStages T b sub n inner w1).1 ≠ .panic := by
+            intro hp
+            apply h
+            rw [hlp]
+            cases lres with
+            | value v => exact absurd rfl (hnv v)
+            | pending => simp only [hp, itemDiffs]
+            | ended => simp only [hp, itemDiffs]
+          rw [ih inner w1 hin]
+          have h' : (match itemDiffs (pollStages T b sub n inner w1).1 with
+              | none => ((pollStages T b sub n inner w1).1, st :: (pollStages T b sub n inner w1).2.1, (pollStages T b sub n inner w1).2.2)
+              | some ds =>
+                match st.onDiffs T ds with
+                | none => (Item.panic, st :: (pollStages T b sub n inner w1).2.1, (pollStages T b sub n inner w1).2.2)
+                | some (out, st2) =>
+                  match emit b out with
+                  | some (it', rest) => (it', st2.setReady rest :: (pollStages T b sub n inner w1).2.1, (pollStages T b sub n inner w1).2.2)
+                  | none => pollStages T b sub n (st2 :: (pollStages T b sub n inner w1).2.1) (pollStages T b sub n inner w1).2.2).1 ≠ .panic := by
+            rw [hlp] at h
+            cases lres with
+            | value v => exact absurd rfl (hnv v)
+            | pending => exact h
+            | ended => exact h
+          split
+          · rfl
+          · split
+            · rfl
+            · split
+              · rfl
+              · rename_i hds _ _ _ hod _ hem
+                simp only [hds, hod, hem] at h'
+                exact ih _ _ h'
+
+theorem pollStages_fuel_stable {α} (T : Tables α) (b : Bool) (sub : Nat) (n : Nat) (sts : List (Stage α)) (w : PWorld α)
+    (h : (pollStages T b sub n sts w).1 ≠ .panic) : ∀ m, n ≤ m → pollStages T b sub m sts w = pollStages T b sub n sts w := by
+  intro m hm
+  induction m with
+  | zero => have : n = 0 := by omega
+            subst this; rfl
+  | succ k ih =>
+    by_cases hk : n ≤ k
+    · have e := ih hk
+      rw [pollStages_fuel_succ T b sub k sts w (by rw [e]; exact h), e]
+    · have : n = k + 1 := by omega
+      subst this; rfl
+
 end EV
